@@ -182,7 +182,15 @@ def materialise(case, root: Path):
     m.file_id, m.mem_store = [], {}
 
     def sc(c):
-        return c.replace("{R}", str(root)) if isinstance(c, str) else c
+        return c.replace("{RN}", root.name).replace("{R}", str(root)) if isinstance(c, str) else c
+
+    if case.get("sibling"):
+        # a folder NEXT TO the root whose name extends the root's name (root 'proj', sibling 'proj_old'):
+        # with a root folder set nothing in it is loadable, although its path has the root's path as a string prefix
+        sib = root.parent / (root.name + "_old")
+        sib.mkdir(parents=True, exist_ok=True)
+        (sib / "outside.csv").write_text("author:;outside\n\n**outside_t;\nall\nc\n-\n1\n\n***note\nleaked\n")
+        (sib / "in_more.csv").write_text("**outside_u;\nall\nc\n-\n2\n")
 
     for f in case["files"]:
         if f["kind"] == "mem":
@@ -205,6 +213,13 @@ def materialise(case, root: Path):
                     for j, c in enumerate(r):
                         if c is not None and c != "":
                             ws.cell(row=i + 1, column=j + 1 + off, value=sc(c))
+            # chart sheets among the worksheets: they are tabs of the workbook, not sheets of cells
+            for title, index in f.get("charts", []):
+                from openpyxl.chart import BarChart, Reference
+                cs = wb.create_chartsheet(title, index)
+                ch = BarChart()
+                ch.add_data(Reference(wb.worksheets[0], min_col=1, min_row=1, max_row=2))
+                cs.add_chart(ch)
             wb.save(p)
         else:
             p.write_text("not a startable file\n")
@@ -263,7 +278,7 @@ def observe_world(case, m):
 
 
 def subst(spec, m):
-    return spec.replace("{R}", str(m.root))
+    return spec.replace("{RN}", m.root.name).replace("{R}", str(m.root))
 
 
 def loc_id(m, key):
@@ -832,7 +847,8 @@ def gen_sheet(rng, fi, si, name, elements, xlsx, offsets=True, lead_fixed=None):
 HOSTILE_TITLES = ["in a b", "it's", "x!A3", "s#", "\u00e9_\u00fc", "in_'q'!A7", " lead", "#'x'!A1", "'q", "set_q'",
                   "in_tab\t", "x'!A"]
 
-FOLDER_LAYOUTS = [[""], ["", "p"], ["", "p", "p/q"], ["", "p", "r"], ["", "in_d.csv"]]
+FOLDER_LAYOUTS = [[""], ["", "p"], ["", "p", "p/q"], ["", "p", "r"], ["", "in_d.csv"],
+                  ["", "p", "p_old"], ["", "pq", "p"]]   # folders whose names extend each other
 
 
 def spec_for(rng, case, src, target, style=None):
@@ -876,11 +892,19 @@ def spec_for(rng, case, src, target, style=None):
     return s, target
 
 
-def bad_spec(rng, case, src):
+def bad_spec(rng, case, src, kind=None):
     """a specification that cannot be loaded, with the reason"""
     files = case["files"]
     rooted = case["root_folder"]
     src_fs = src is not None and files[src]["kind"] != "mem"
+    if kind == "sibling" and rooted and case.get("sibling"):
+        # into the folder next to the root whose name extends the root's: outside the root, a reported load error
+        name = rng.choice(["outside.csv", "in_more.csv", ""])
+        opts = ["/../{RN}_old/" + name, "\\../{RN}_old/" + name, "file:/../{RN}_old/" + name]
+        if src_fs:
+            depth = files[src]["path"].count("/") + 1
+            opts += ["../" * depth + "{RN}_old/" + name] * 3
+        return rng.choice(opts), ("X", "loaderror")
     opts = []
     if src_fs:
         opts.append(("nope_%d.csv" % rng.randint(0, 9), ("X", "missing")))
@@ -915,7 +939,8 @@ def build_case(rng, n_files, edges, *, folders, kinds, root_folder, roots_mode, 
         ext = {"csv": rng.choice([".csv", ".csv", ".CSV"]), "xlsx": ".xlsx", "txt": ".txt", "mem": ""}[kind]
         path = (folder + "/" if folder else "") + base + ext if kind != "mem" else f"m{i}"
         files.append({"path": path, "kind": kind, "sheets": []})
-    case = {"folders": sorted(set(folders) | {""}), "files": files, "root_folder": root_folder,
+    case = {"sibling": bool((opts or {}).get("sibling")),
+            "folders": sorted(set(folders) | {""}), "files": files, "root_folder": root_folder,
             "start_pattern": start_pattern, "tracker": tracker, "allow_include": allow_include, "mem": mem,
             "sheet_pattern": sheet_pattern, "roots": None, "root_targets": []}
     tno = 0
@@ -943,7 +968,7 @@ def build_case(rng, n_files, edges, *, folders, kinds, root_folder, roots_mode, 
             lines = []
             for t in g:
                 if t[0] == "BAD":
-                    lines.append(bad_spec(rng, case, i))
+                    lines.append(bad_spec(rng, case, i, t[1] if len(t) > 1 else None))
                 else:
                     lines.append(spec_for(rng, case, i, t))
             if xlsx and rich and lines and rng.random() < 0.12:
@@ -984,6 +1009,9 @@ def build_case(rng, n_files, edges, *, folders, kinds, root_folder, roots_mode, 
                 sname = rng.choice(HOSTILE_TITLES) + str(si)
             sh = gen_sheet(rng, i, si, sname, els, xlsx, offsets=rich,
                            lead_fixed=lead_common if si in front else None)
+            if xlsx and rich and si == 0 and rng.random() < 0.35:
+                f["charts"] = [["chart%d_%d" % (i, c), rng.randrange(0, nsheets + c + 1)]
+                               for c in range(rng.choice([1, 1, 2]))]
             if si in front:
                 case.setdefault("aligned_includes", []).append([i, si, sh["truth"][0]["row"]])
             if sheet_pattern and xlsx:
@@ -1102,13 +1130,18 @@ def random_case(crng, xlsx_share=0.2, force_mem=False):
         if crng.random() < 0.07:
             extra.append((i, ("BAD",)))
     root_folder = crng.random() < 0.55
+    sibling = root_folder and crng.random() < 0.35
+    if sibling:
+        for i in range(n):
+            if crng.random() < 0.5:
+                extra.append((i, ("BAD", "sibling")))
     roots_mode = crng.choice(["default", "folder", "file", "file", "two"])
     start = crng.choice([None, None, "in_", "(in|set)_", "(?!x_)"])
     case = build_case(crng, n, es, folders=folders, kinds=kinds, root_folder=root_folder,
                       roots_mode=roots_mode, start_pattern=start,
                       tracker=crng.choice(["default", "collecting", "collecting"]),
                       allow_include=crng.random() < 0.85, mem=mem, extra_edges=extra, rich=True,
-                      sheet_pattern=crng.choice([None, None, "in_", "(in|set)_"]))
+                      sheet_pattern=crng.choice([None, None, "in_", "(in|set)_"]), opts={"sibling": sibling})
     case["gen"] = {"random": True}
     r = crng.random()
     case["pattern_mode"] = "compiled" if r < 0.45 else "both" if (r < 0.5 and start is not None) else "start"
@@ -1147,6 +1180,11 @@ def classify(case, impl, out):
     out.count("mem:" + str(case["mem"]))
     out.count("pattern:" + str(case["start_pattern"]))
     out.count("pattern_mode:" + case.get("pattern_mode", "start"))
+    if case.get("sibling") and any("{RN}_old" in ln for f in case["files"] for sh in f["sheets"] for b in sh["truth"]
+                                   if b["ty"] == "DIRECTIVE" for ln in b["lines"]):
+        out.count("cases_with_an_include_into_a_sibling_whose_name_extends_the_root")
+    if any(f.get("charts") for f in case["files"]):
+        out.count("cases_with_chart_sheets_in_a_workbook")
     if any(b.get("bad") for f in case["files"] for sh in f["sheets"] for b in sh["truth"]):
         out.count("cases_with_a_table_that_does_not_parse:" + case["tracker"])
     if any(not isinstance(r[0], (str, type(None))) for f in case["files"] if f["kind"] == "xlsx"
